@@ -24,11 +24,11 @@ def configs(tier):
         "bts-child+ms-child": [("C1", 5700, 1), ("M1", 6700, 1)],
         "extra-trx": [("X", 7700, 0)],          # three clock owners
         "bts-child12": [("C12", 5700, 12)],     # a two-digit child index (ports base + 24 ...); quick: depth 2 only
+        "extra-trx+child": [("X", 7700, 0), ("X1", 7700, 1)],   # an additional parent with a child; quick: depth 3 only
     }
     if tier == "thorough":
         c.update({
             "bts-2children": [("C1", 5700, 1), ("C2", 5700, 2)],
-            "extra-trx+child": [("X", 7700, 0), ("X1", 7700, 1)],
             "bts-child+extra": [("C1", 5700, 1), ("X", 7700, 0)],
             "other-ports": "ports",
         })
@@ -151,12 +151,12 @@ class Spec:
 def run(ctx):
     for name, extra in configs(ctx.tier).items():
         spec = Spec(name, extra, ctx.tier)
-        r = explore.bfs(ctx, spec, max_depth=2 if (ctx.quick and name == "bts-child12") else 40, label=name)
+        r = explore.bfs(ctx, spec, max_depth={"bts-child12": 2, "extra-trx+child": 3}.get(name, 40) if ctx.quick else 40, label=name)
     from vlib.props import c03_sched
     c03_sched.run(ctx, family="clock")
-    ctx.cov["exhaustive"] = all(r["frontier_exhausted"] for r in ctx.cov["runs"] if not (ctx.quick and "child12" in r["spec"]))
+    ctx.cov["exhaustive"] = all(r["frontier_exhausted"] for r in ctx.cov["runs"] if not (ctx.quick and ("child12" in r["spec"] or "extra-trx+child" in r["spec"])))
     if ctx.quick:
-        ctx.assumptions.append("configuration bts-child12 (two-digit child index) is explored to depth 2 only in the quick tier")
+        ctx.assumptions.append("configurations bts-child12 (two-digit child index) and extra-trx+child are explored to depth 2 / 3 only in the quick tier")
     ctx.cov["evaluations"] = ctx.cov["transitions"]
     ctx.cov["distinct_nontrivial"] = ctx.cov["states"]
     ctx.cov["rule"] = ("states = canonical snapshots (all toolkit object attributes + reference model state) reached by "
